@@ -194,9 +194,9 @@ def buildAmmo (method url body : Str) (header : Hdr) : Option Req :=
 /-- uri.go readLine / uripost.go readBlock, repaired: clone of the file's common header, configured headers
 only where the file has none -/
 def mergeUri (common conf : Hdr) : Hdr :=
-  conf.foldl (fun h kv => match hget h kv.1 with
+  conf.foldl (fun h kv => match hget h (canon kv.1) with
     | some _ => h
-    | none => hput h kv.1 kv.2) common
+    | none => hput h (canon kv.1) kv.2) common
 
 /-- the unrepaired tree: `for k, vv := range conf { for _, v := range vv { header.Set(k, v) } }` -/
 def mergeUriOld (common conf : Hdr) : Hdr :=
